@@ -149,6 +149,22 @@ CLAIMED = {
             "contract-based deductive verification of the prefix allocator (z3 strings) + order-adversary execution of the "
             "real builders + labelled bounded reference-resolver / foreign-client checks",
             "DESIGN.md section 4 C07"),
+    'C06': ("Proved (symbolic facet values, every integer): the restriction emitters publish exactly the declared facets "
+            "-- ge/gt/le/lt/total_digits of the integer family, min_len/max_len/pattern of Unicode, min_occurs/max_occurs/"
+            "nillable/name/type/order of members -- each with the canonical literal of the declared value and no facet for "
+            "a default; with C05 (soft validation == the declared constraint, proved) this yields lxml/soft agreement for "
+            "every facet value, assuming libxml2 implements the XSD facets. Bounded (labelled): three generated type "
+            "universes compile; every response of the real pipeline and every request of the Spyne client for conformant "
+            "boundary values (C01's signatures, a 37-member facet type with enumerations on every primitive, binary "
+            "encodings, choice group, cross-namespace inheritance, required attribute) validates against the generated "
+            "schema; lxml and soft validation agree with each other and with an XSD reference predicate on 140 boundary "
+            "probes x XmlDocument/Soap11/Soap12.",
+            "libxml2's XSD facet semantics assumed (audited by the probes); totalDigits/fractionDigits and use=required are "
+            "published but have no soft-validation code (not 'implemented by both'); open known finding: Decimal exponent "
+            "notation",
+            "contract-based deductive verification of the schema emitters (z3, ghost attributes for lxml) + labelled bounded "
+            "differential validation against the generated schema",
+            "DESIGN.md section 4 C06"),
 }
 NOT_YET = {}
 for i in range(1, 19):
